@@ -156,6 +156,12 @@ def run(st, drv, root, batch):
             # a regular file of the same name in a directory added later loses: the first directory in the order added wins
             decoys += ['mkfile %s %s' % (enc(b'sp2/' + n), enc(b'}}} not this one')) for n in files if b'/' not in n]
         lines = world.setup() + decoys + ['mkfile %s %s' % (enc(n), enc(c)) for n, c in disk.items()]
+        if 'symbolic-link' in label:
+            # every included file is reached through a symbolic link to the regular file that holds its text
+            lines = world.setup() + decoys
+            for n, c in disk.items():
+                lines.append('mkfile %s %s' % (enc(n + b'.real'), enc(c)))
+                lines.append('symlink %s %s' % (enc(world.root + b'/' + n + b'.real'), enc(n)))
         lines += ['init A I2 0'] + world.paths() + ['parse_buf A ' + enc(main), 'dump A 0', 'lexstate']
         c = Case(lines)
         cases.append(c)
@@ -293,6 +299,8 @@ SPECIAL = [
     ('include-call-over-several-lines', b'include\n(\n"@f1.conf"\n)\ni = x', {b'f1.conf': b'i = 7\n\n'}, None),
     ('include-call-over-several-lines-in-section', b'sec {\ninclude(\n"@f1.conf")\nx = bad }', {b'f1.conf': b'x = 4\n'}, None),
     ('include-call-over-several-lines-nested', b'include("@f1.conf")\ni = x', {b'f1.conf': b'include\n(\n"@f2.conf"\n)\n\n', b'f2.conf': b'i = 8'}, None),
+    ('included-file-is-a-symbolic-link', b'i = 7\ninclude("@f1.conf")\nl += {2}', {b'f1.conf': b'i = 8\nsec { x = 4 }\n'}, b'i = 7\ni = 8\nsec { x = 4 }\nl += {2}'),
+    ('symbolic-link-nested-and-error-after', b'include("@f1.conf")\ni = x', {b'f1.conf': b'include("@f2.conf")\n', b'f2.conf': b'i = 8\n'}, None),
     ('unterminated-string-in-file', b'include("@f1.conf")\ni = 8', {b'f1.conf': b's = "abc'}, None),
     ('unterminated-comment-in-file', b'include("@f1.conf")\ni = 8', {b'f1.conf': b'i = 7 /* abc'}, None),
     ('titled-instances-across-files', b'include("@f1.conf") include("@f2.conf")', {b'f1.conf': b'm { x = 1 }', b'f2.conf': b'm { x = 2 } m { }'}, b'm { x = 1 } m { x = 2 } m { }'),
